@@ -81,7 +81,8 @@ def classify(toks, n, per):
             k_seq += 1
             order.append((p, i))
         elif kind == 'M':
-            locked_m.append((p, i))
+            if i >= 0:
+                locked_m.append((p, i))
         elif kind == 'F':        # Sink::flush entered (fatal path): a sink entry point like send()
             if inside is not None:
                 bad.append(('overlap', 'producer %d entered Sink::flush() (fatal message %d) while %s was inside the pipeline' % (p, i, inside), pos))
@@ -150,6 +151,18 @@ def mixed_fatal_configs(chk, reps, total):
              'perturb': chk.rng.choice([0, 1, 2]), 'dup': 0, 'stall': 0} for _ in range(reps) for n in (2, 4, 8)]
 
 
+def special_configs(chk, reps, total):
+    """a user handler that throws once (the caller catches), a fluent-built pipeline with a level filter in front of the
+    sequence number (a third of the messages do not qualify), two pipelines under different locks with pattern formatters"""
+    cfgs = []
+    for _ in range(reps):
+        for mode, n, per in (('throw', 4, 100), ('throwlogger', 4, 100), ('filtered', 4, total // 4), ('filtered', 16, total // 16),
+                             ('pattern', 4, 1500), ('pattern', 8, 750)):
+            cfgs.append({'mode': mode, 'n': n, 'per': per, 'seed': chk.rng.randrange(1, 2 ** 31),
+                         'perturb': chk.rng.choice([0, 1, 2]), 'dup': 0, 'stall': 0})
+    return cfgs
+
+
 def stall_configs(chk, reps, ms):
     """a handler of long duration: one message keeps the pipeline busy for `ms` while the other producers keep logging"""
     return [{'mode': mode, 'n': 4, 'per': 60, 'seed': chk.rng.randrange(1, 2 ** 31), 'perturb': 1, 'dup': 0, 'stall': ms}
@@ -182,7 +195,7 @@ def run():
     impl = vlib.build_harness('conc')
     thorough = chk.tier == 'thorough'
     total = 2000
-    cfgs = stall_configs(chk, 1, 1300) + entry_configs(chk, 6 if thorough else 2, total) + gen_configs(chk, 17 if thorough else 4, total)
+    cfgs = stall_configs(chk, 1, 1300) + special_configs(chk, 3 if thorough else 1, total) + entry_configs(chk, 6 if thorough else 2, total) + gen_configs(chk, 17 if thorough else 4, total)
     mixed_fatal = os.environ.get('VERIF_C02_MIXED_FATAL') == '1'
     if mixed_fatal:
         cfgs += mixed_fatal_configs(chk, 2, total)
@@ -190,7 +203,7 @@ def run():
     static = dict(kv.split('=') for kv in static_out.split()) if rcs == 0 else {'error': 'model static report failed'}
     if not proof_ok:
         # the skeleton no longer satisfies the obligation (or a proof broke): widen the schedule search
-        cfgs += gen_configs(chk, 5, total, heavy=True) + entry_configs(chk, 4, total) + stall_configs(chk, 1, 2600)
+        cfgs += gen_configs(chk, 5, total, heavy=True) + entry_configs(chk, 4, total) + stall_configs(chk, 1, 2600) + special_configs(chk, 2, total)
     results = []
     with concurrent.futures.ThreadPoolExecutor(max_workers=4) as ex:
         futs = [(c, ex.submit(run_one, impl, c)) for c in cfgs]
@@ -201,6 +214,7 @@ def run():
     switches = 0
     reported = 0
     disagreements = 0
+    fmt_checked = 0
     for cfg, rc, hdr, toks, err in results:
         if rc != 0 or hdr is None:
             kind = 'hang' if rc == 124 else 'crash'
@@ -209,6 +223,31 @@ def run():
                 chk.fail('harness %s under concurrent logging (%s, %d threads): memory corruption or deadlock' % (kind, cfg['mode'], cfg['n']),
                          dict(cfg, kind=kind, rc=rc, stderr=err[-600:]), kind=kind)
                 reported += 1
+            continue
+        if ' HANG' in hdr:
+            kinds['hang'] = kinds.get('hang', 0) + 1
+            if reported < 3:
+                done = sum(1 for t in toks if t[0] == 'X')
+                chk.fail('hang: after a user handler threw on one message (the caller caught the exception) the logger never delivered '
+                         'again: %d of %d messages delivered within 8 s, every later call blocks (mode %s)' % (done, cfg['n'] * cfg['per'], cfg['mode']),
+                         dict(cfg, kind='hang', delivered=done, expected=cfg['n'] * cfg['per'], last_events=toks[-8:], header=hdr), kind='hang')
+                reported += 1
+            continue
+        if cfg['mode'] == 'pattern':
+            mf = re.search(r'fmt_checked=(\d+) fmt_bad=(\d+) first_bad=(\S+)', hdr)
+            fmt_checked += int(mf.group(1)) if mf else 0
+            if not mf or int(mf.group(2)) > 0 or int(mf.group(1)) != cfg['n'] * cfg['per']:
+                kinds['format_corrupt'] = kinds.get('format_corrupt', 0) + 1
+                if reported < 3:
+                    fb = (mf.group(3) if mf else '-').split(':')
+                    dec = lambda h: bytes.fromhex(h).decode('utf-8', 'replace')
+                    det = ({'pipeline': {'L': 'installed Logger, pattern <%{user?1,1}> %{message}', 'A': 'bare handler, pattern [audit] %{message}'}.get(fb[0], fb[0]),
+                            'producer': int(fb[1]), 'index': int(fb[2]), 'formatted': dec(fb[3]), 'single_threaded_expectation': dec(fb[4])} if len(fb) == 5 else {})
+                    chk.fail('format_corrupt: two pipelines under different locks, each with a PatternFormatter: %s of %s formatted texts differ from '
+                             'the single-threaded result, e.g. %r instead of %r' % (mf.group(2) if mf else '?', mf.group(1) if mf else '?',
+                                                                                    det.get('formatted'), det.get('single_threaded_expectation')),
+                             dict(cfg, kind='format_corrupt', header=hdr[:300], **det), kind='format_corrupt')
+                    reported += 1
             continue
         n_events += len(toks)
         xs = [t for t in toks if t[0] == 'X']
@@ -271,7 +310,8 @@ def run():
                             'non-trivial = at least two deliveries per producer' % (len(results), total),
                     'events_recorded': n_events, 'deliveries': n_deliv, 'producer_switches_between_consecutive_deliveries': switches,
                     'threads_histogram': {str(n): sum(1 for r in results if r[0]['n'] == n) for n in NS},
-                    'mode_histogram': {m: sum(1 for r in results if r[0]['mode'] == m) for m in ('logger', 'bare', 'mixed', 'fatal', 'mixed+fatal')},
+                    'mode_histogram': {m: sum(1 for r in results if r[0]['mode'] == m) for m in ('logger', 'bare', 'mixed', 'fatal', 'mixed+fatal', 'throw', 'throwlogger', 'filtered', 'pattern')},
+                    'formatted_texts_compared': fmt_checked,
                     'flush_intervals_recorded': sum(sum(1 for t in r[3] if t[0] == 'F') for r in results),
                     'perturb_histogram': {str(p): sum(1 for r in results if r[0]['perturb'] == p) for p in range(4)},
                     'dupfilter_runs': sum(1 for r in results if r[0]['dup']), 'long_handler_runs': sum(1 for r in results if r[0].get('stall')),
